@@ -382,6 +382,16 @@ func checkUnrank(c unrankCase, rec *Rec) error {
 	if !eqInts(got, want) {
 		return fmt.Errorf("Unrank(%d,%d) = %v want %v", c.Rank, c.K, got, want)
 	}
+	if c.K <= 12 && c.Rank < 1<<40 {
+		// the result belongs to the caller: overwrite it and ask again
+		for i := range got {
+			got[i] = -1
+		}
+		if again := comb.Unrank(c.Rank, c.K); !eqInts(again, want) {
+			return fmt.Errorf("Unrank(%d,%d) = %v (want %v) after the caller overwrote the result of an earlier identical call", c.Rank, c.K, again, want)
+		}
+		got = append([]int{}, want...)
+	}
 	// Rank inverts it whenever every binomial it needs is in the range Coeff promises to return
 	rankable := true
 	for i, v := range want {
